@@ -88,6 +88,39 @@ def impl_inplace(_: dict) -> dict:
                 if got != want:
                     problems.append({"what": "the same object, changed in place since an earlier validation, was not judged as it is now",
                                      "library": lib, "form": fname, "state": label, "expected": want, "got": got})
+    # the body changes the RANK of its own argument in place and returns it: the return annotation is checked against what the
+    # argument was when it was validated (bindings, *group lengths), not against what it has become
+    G4 = Annotated[np.ndarray, dltype.FloatTensor["*b 1 h w"]]
+    G3 = Annotated[np.ndarray, dltype.FloatTensor["*b h w"]]
+
+    def squeeze_channel(x):
+        x.shape = x.shape[:-3] + x.shape[-2:]
+        return x
+
+    def keep(x):
+        return x
+
+    def grow(x):
+        x.shape = (1, *x.shape)
+        return x
+
+    for body, ann_in, ann_out, shape, want in (
+            (squeeze_channel, G4, G3, (2, 1, 3, 4), "accept"), (squeeze_channel, G4, G3, (5, 2, 1, 3, 4), "accept"), (squeeze_channel, G4, G3, (1, 3, 4), "accept"),
+            (keep, G4, G3, (2, 1, 3, 4), "reject"),     # *b = (2,), so the result must have rank 3
+            (grow, G3, G3, (2, 3, 4), "reject"),        # one axis more than *b h w with *b = (2,)
+            (grow, G4, G4, (2, 1, 3, 4), "reject")):
+        def f(x):
+            return body(x)
+
+        f.__annotations__ = {"x": ann_in, "return": ann_out}
+        g = dltype.dltyped()(f)
+        n += 1
+        got = outcome(lambda: g(np.zeros(shape, dtype=np.float32)))
+        if want == "reject" and got.startswith("DLType"):
+            got = "reject"
+        if got != want:
+            problems.append({"what": "a body that re-ranks its argument in place and returns it: the result was not checked against the bindings of the call",
+                             "body": body.__name__, "argument": list(shape), "expected": want, "got": got})
     return {"n": n, "problems": problems}
 
 
